@@ -207,3 +207,10 @@ Definition tcx_coef (P : provider) (l : line) (ne te : Q) (d : species) : Q :=
 Record ppoint := mkPoint { pt_ne : Q; pt_te : Q; pt_comp : composition }.
 Definition emission_seq {B} (emit : Q -> Q -> composition -> B) (pts : list ppoint) : list B :=
   map (fun p => emit (pt_ne p) (pt_te p) (pt_comp p)) pts.
+
+(* ---------------------------------------------------------------------------------------- *)
+(* writing into a spectrum that already holds something                                     *)
+(* ---------------------------------------------------------------------------------------- *)
+(* for i in range(spectrum.bins): spectrum.samples_mv[i] += radiance;  an early return / error leaves it untouched *)
+Definition spectrum_after (old : list Q) (o : outcome) : list Q :=
+  match o with Emit r => map (fun s => s + r) old | _ => old end.
